@@ -69,6 +69,8 @@ pub(crate) mod resolver;
 pub mod streams;
 #[cfg(feature = "test-utils")]
 pub mod testing;
+#[cfg(iroh_verif)]
+pub mod verif_pause;
 
 pub use self::{
     http_server::{Handlers, RelayService},
@@ -179,6 +181,12 @@ impl ConnectionId {
     fn next() -> Self {
         static NEXT: AtomicU64 = AtomicU64::new(0);
         Self(NEXT.fetch_add(1, Ordering::Relaxed))
+    }
+
+    /// Verification hook, compiled only with `--cfg iroh_verif`: the raw counter value.
+    #[cfg(iroh_verif)]
+    pub fn verif_raw(&self) -> u64 {
+        self.0
     }
 }
 
